@@ -2,8 +2,10 @@ package props
 
 import (
 	"encoding/xml"
+	"github.com/beevik/etree"
 	"hash/fnv"
 	"net/url"
+	"strings"
 
 	"github.com/crewjam/saml"
 )
@@ -38,3 +40,36 @@ func intPtr(i int) *int       { return &i }
 
 func xmlMarshal(v any) ([]byte, error)   { return xml.Marshal(v) }
 func xmlUnmarshal(b []byte, v any) error { return xml.Unmarshal(b, v) }
+
+// Confirmation methods other than bearer are rare but legal; every rule a property states for "every subject
+// confirmation" applies to them as well.
+var confMethods = []string{"urn:oasis:names:tc:SAML:2.0:cm:bearer", "urn:oasis:names:tc:SAML:2.0:cm:holder-of-key", "urn:oasis:names:tc:SAML:2.0:cm:sender-vouches", ""}
+
+// setConfMethods rewrites the Method of the assertion's subject confirmations; pick[i] indexes confMethods (0 = bearer).
+func setConfMethods(ael *etree.Element, pick []int) string {
+	var names []string
+	for i, sc := range ael.FindElements("./Subject/SubjectConfirmation") {
+		if i >= len(pick) {
+			break
+		}
+		m := confMethods[pick[i]%len(confMethods)]
+		sc.CreateAttr("Method", m)
+		n := "none"
+		if j := strings.LastIndex(m, ":"); j >= 0 {
+			n = m[j+1:]
+		}
+		names = append(names, n)
+	}
+	return strings.Join(names, ",")
+}
+
+// pickConfMethods draws methods for n confirmations: mostly bearer, sometimes something else.
+func pickConfMethods(r interface{ Intn(int) int }, n int) []int {
+	out := make([]int, n)
+	for i := range out {
+		if r.Intn(4) == 0 {
+			out[i] = 1 + r.Intn(3)
+		}
+	}
+	return out
+}
